@@ -652,9 +652,9 @@ fn pool_script(rng: &mut Rng, sharded: bool, n: u64, nvalid: usize, has_bad: boo
                 steps.push("W".into());
                 queries(rng, &mut steps);
             }
-            // the node holds back the USE answers on the published connections: the call times out (5 s) with its
+            // the node holds back the USE answers on the published connections: the call times out (1 s here) with its
             // USE in flight; after the release it is answered, before anything written later
-            12 if rng.chance(2, 5) => {
+            12 | 13 if rng.chance(4, 5) => {
                 match rng.below(6) {
                     // answered in order after the release
                     0 | 1 => {
@@ -769,7 +769,7 @@ fn emit_scripted(rng: &mut Rng, emit: &mut dyn FnMut(String)) {
         steps.push("Q0".into());
         steps.push("Q1".into());
     };
-    let variant = rng.below(6);
+    let variant = rng.below(8);
     let mut blocked = false;
     match variant {
         0 => {
@@ -783,8 +783,31 @@ fn emit_scripted(rng: &mut Rng, emit: &mut dyn FnMut(String)) {
             node.extend(["1/2", "1/2", "0/2"].map(String::from));
             blocked = true;
         }
-        _ => {
+        5 => {
             node.extend(["1/2", "x", "x", "0/2"].map(String::from));
+        }
+        // the first connection lands on shard 1, the second on shard 0: the walk over the buckets (shard 0 first) is
+        // NOT the acceptance order. Then the USE fails differently on the two: which error is reported?
+        _ => {
+            node.extend(["1/2", "0/2"].map(String::from));
+            let kinds = ["R", "M", "V"];
+            let a = *rng.pick(&kinds);
+            let b = *kinds.iter().filter(|k| **k != a).nth(rng.below(2) as usize).unwrap();
+            let (sa, sb) = if rng.bool() { (0, 1) } else { (1, 0) };
+            if !has_init {
+                steps.push("U1".into());
+            }
+            steps.push(format!("{}0,{}", a, sa));
+            steps.push(format!("{}0,{}", b, sb));
+            steps.push("U0".into());
+            q2(&mut steps);
+            steps.push("X".into());
+            steps.push("U0".into());
+            q2(&mut steps);
+            steps.push("W".into());
+            steps.push("L".into());
+            emit(format!("pool S2@{} {} {} {}", node.join("."), init, names_field(&sc.names), steps.join(";")));
+            return;
         }
     }
     if !has_init || rng.bool() {
@@ -1092,7 +1115,22 @@ async fn run_pool(w: &[&str], race: bool, progress: &Mutex<String>, peek: &Mutex
     };
     // connections of a full pool: PerHost(n), or one per shard the node currently reports
     let total = |node: &Node| -> usize { if sharded { node.st.lock().unwrap().cur_n.unwrap_or(n) as usize } else { n as usize } };
-    let pool = Arc::new(VerifPool::new(node.addr, size, init.map(|i| (names[i].0.as_str(), names[i].1)), true, None).ok()?);
+    // scripts in which the node holds back USE answers make a call run into the pool's USE timeout (= the connect
+    // timeout): 1 s instead of the default 5 s, so that many such histories fit into a run; the waits of the script are
+    // then given more room (a connection attempt may itself hit the short timeout on a loaded machine and be retried)
+    let short_timeout = w.get(4).is_some_and(|sc| sc.split(';').any(|st| st == "D" || st.starts_with('E')));
+    let pool = Arc::new(
+        VerifPool::new_with(
+            node.addr,
+            size,
+            init.map(|i| (names[i].0.as_str(), names[i].1)),
+            true,
+            None,
+            if short_timeout { Some(Duration::from_millis(1000)) } else { None },
+            None,
+        )
+        .ok()?,
+    );
     pool.wait_until_initialized().await;
     let mut out: Vec<String> = Vec::new();
     let mut calls: Vec<UseCall> = Vec::new();
@@ -1202,7 +1240,7 @@ async fn run_pool(w: &[&str], race: bool, progress: &Mutex<String>, peek: &Mutex
                     None => out.push("k-".into()),
                 }
             }
-            "W" => out.push(wait_full(&pool, &node, &total, 1500).await),
+            "W" => out.push(wait_full(&pool, &node, &total, if short_timeout { 6000 } else { 1500 }).await),
             "Z" => tokio::time::sleep(Duration::from_millis(arg.parse().ok()?)).await,
             "R" | "M" | "V" | "P" | "C" => {
                 let (i, s) = arg.split_once(',')?;
@@ -1264,7 +1302,7 @@ async fn run_pool(w: &[&str], race: bool, progress: &Mutex<String>, peek: &Mutex
                         out.push("h".into());
                         break;
                     }
-                    if t0.elapsed() > Duration::from_millis(1500) {
+                    if t0.elapsed() > Duration::from_millis(if short_timeout { 6000 } else { 1500 }) {
                         out.push("h-".into());
                         break;
                     }
@@ -1351,7 +1389,8 @@ async fn run_resp(w: &[&str], ctx: &mut Ctx) -> Option<String> {
 // `sess`: a REAL Session against the mock cluster, compared token by token with the session / cluster model
 // ---------------------------------------------------------------------------------------------
 //
-// `sess <n> <name:cs,...> <step;...>`   n unsharded nodes (one pool connection each). Steps:
+// `sess <n>[/<mask>] <name:cs,...> <step;...>`   n unsharded nodes (one pool connection each); bit i of the mask: the
+// session is built with a host filter that rejects node i (it is known, has no pool, answers a fan-out with Ok). Steps:
 //   `U<i>`         session.use_keyspace(names[i])                      → `ok` | `e:<label>`
 //   `R<i>,<n|*>`   node n (all nodes) answers `USE names[i]` with an Invalid error      `X` no more rejections
 //   `T<n>`         node n stops answering `USE` (the call times out after 700 ms)     `t` all nodes answer again
@@ -1368,6 +1407,19 @@ fn sess_generate(rng: &mut Rng, emit: &mut dyn FnMut(String)) {
     let sc = pick_names(rng, nvalid, has_bad);
     let mut steps: Vec<String> = vec!["W".into()];
     let mut nodes = n;
+    // every third case: the session is built with a host filter that rejects some of the nodes (possibly all of them,
+    // possibly one that joins later): those are known, have no pool and answer the fan-out with Ok
+    let host_mask: u64 = if rng.chance(1, 3) { 1 + rng.below((1 << (n + 1)) - 1) } else { 0 };
+    if host_mask != 0 && rng.bool() {
+        // the connections of the nodes that do have a pool break right before the FIRST use_keyspace: the call may be
+        // answered Ok with no acknowledgement at all; the connections opened afterwards must carry the keyspace
+        for i in (0..n).filter(|i| host_mask >> i & 1 == 0) {
+            steps.push(format!("K{}", i));
+        }
+        steps.push(format!("U{}", rng.below(nvalid as u64)));
+        steps.push("W".into());
+        steps.push(format!("Q{}", rng.range(2, 4)));
+    }
     for _ in 0..rng.range(3, 6) {
         match rng.below(10) {
             0 | 1 | 2 => {
@@ -1405,6 +1457,21 @@ fn sess_generate(rng: &mut Rng, emit: &mut dyn FnMut(String)) {
                 steps.push(format!("U{}", i));
                 steps.push(format!("Q{}", rng.range(2, 4)));
             }
+            // two nodes fail differently (one rejects, one does not answer): which error the call reports follows a
+            // HashMap's order in the code - any of them is accepted, Ok is not
+            8 if nodes >= 2 => {
+                let i = rng.below(nvalid as u64);
+                let a = rng.below(nodes as u64);
+                let b = (a + 1 + rng.below(nodes as u64 - 1)) % nodes as u64;
+                steps.push(format!("R{},{}", i, a));
+                steps.push(format!("T{}", b));
+                steps.push(format!("U{}", i));
+                steps.push(format!("Q{}", rng.range(2, 4)));
+                steps.push("X".into());
+                steps.push("t".into());
+                steps.push(format!("U{}", i));
+                steps.push(format!("Q{}", rng.range(2, 3)));
+            }
             8 if has_bad => {
                 steps.push(format!("U{}", nvalid));
                 steps.push(format!("U{}", nvalid));
@@ -1420,17 +1487,31 @@ fn sess_generate(rng: &mut Rng, emit: &mut dyn FnMut(String)) {
     }
     steps.push("W".into());
     steps.push("L".into());
-    emit(format!("sess {} {} {}", n, names_field(&sc.names), steps.join(";")));
+    let n_field = if host_mask == 0 { n.to_string() } else { format!("{}/{}", n, host_mask) };
+    emit(format!("sess {} {} {}", n_field, names_field(&sc.names), steps.join(";")));
+}
+
+/// The session's host filter of the `sess <n>/<mask>` cases: rejects the listed addresses.
+struct RejectAddrs(Vec<std::net::IpAddr>);
+impl scylla::policies::host_filter::HostFilter for RejectAddrs {
+    fn accept(&self, peer: &scylla::cluster::metadata::Peer) -> bool {
+        !self.0.contains(&peer.address.ip())
+    }
 }
 
 fn run_sess(w: &[&str], ctx: &mut Ctx) -> Option<String> {
     use crate::e2e::common::{Shape, Strat, connect, row_specs, std_table, with_std_prepare};
     use crate::mockcluster::{Act, KeyspaceSpec, MockCluster, NodeSpec, Req, act_error, host_id_of, rows_body, simple_strategy};
     use crate::mocknode::ShardMode;
-    let n: usize = w.get(1)?.parse().ok()?;
-    if !(1..=4).contains(&n) {
+    // `<n>` or `<n>/<mask>`: bit i of the mask = the session's host filter rejects node i
+    let (n, host_mask): (usize, usize) = match w.get(1)?.split_once('/') {
+        None => (w.get(1)?.parse().ok()?, 0),
+        Some((a, m)) => (a.parse().ok()?, m.parse().ok()?),
+    };
+    if !(1..=4).contains(&n) || host_mask >= 256 {
         return None;
     }
+    let filtered = move |i: usize| host_mask >> i & 1 == 1;
     let names = parse_names(w.get(2)?)?;
     let steps: Vec<&str> = w.get(3)?.split(';').filter(|s| !s.is_empty()).collect();
     let shape = Shape { nodes: n, dcs: 1, racks: 1, shards: 0, msb: 12, vnodes: 2, strat: Strat::Simple(1), seed: 7 };
@@ -1470,7 +1551,47 @@ fn run_sess(w: &[&str], ctx: &mut Ctx) -> Option<String> {
         cluster.set_auto_use(false);
         // a call whose USE is not answered by some node times out after the connection timeout
         let with_timeouts = steps.iter().any(|s| s.starts_with('T'));
-        let session = match connect(&cluster, |b| if with_timeouts { b.connection_timeout(Duration::from_millis(700)) } else { b }).await {
+        // the host filter: rejects the nodes of the mask (by address; nodes that join later included)
+        let rejected: Vec<std::net::IpAddr> = (0..8).filter(|i| filtered(*i)).map(|i| cluster.addr(i).ip()).collect();
+        // waits until the session knows all nodes and every node the filter accepts has its pool connection
+        let wait_full = async |session: &scylla::client::session::Session, timeout: Duration| -> bool {
+            if host_mask == 0 {
+                return cluster.wait_pools_full(session, timeout).await;
+            }
+            let t0 = std::time::Instant::now();
+            loop {
+                let full = || session.get_cluster_state().get_nodes_info().len() == cluster.n_nodes() && (0..cluster.n_nodes()).all(|i| filtered(i) || !cluster.live_shards(i).is_empty());
+                if full() {
+                    tokio::time::sleep(Duration::from_millis(15)).await;
+                    if full() {
+                        return true;
+                    }
+                }
+                if t0.elapsed() > timeout {
+                    return false;
+                }
+                tokio::time::sleep(Duration::from_millis(5)).await;
+            }
+        };
+        let customise = |b: scylla::client::session_builder::SessionBuilder| {
+            let b = if with_timeouts { b.connection_timeout(Duration::from_millis(700)) } else { b };
+            if host_mask == 0 { b } else { b.host_filter(Arc::new(RejectAddrs(rejected.clone()))) }
+        };
+        let built = if host_mask == 0 {
+            connect(&cluster, customise).await
+        } else {
+            match customise(cluster.session_builder()).build().await {
+                Ok(s) => {
+                    if wait_full(&s, Duration::from_secs(10)).await {
+                        Ok(s)
+                    } else {
+                        Err("pools-not-full".to_owned())
+                    }
+                }
+                Err(e) => Err(format!("session-build-failed {}", e)),
+            }
+        };
+        let session = match built {
             Ok(s) => s,
             Err(e) => {
                 ctx.fail(format!("sess: the session could not be set up against the mock cluster ({})", e));
@@ -1494,7 +1615,7 @@ fn run_sess(w: &[&str], ctx: &mut Ctx) -> Option<String> {
                             if !valid {
                                 ctx.fail(format!("sess: use_keyspace({:?}) returned Ok for an invalid name", name));
                             }
-                            if !muted.lock().unwrap().is_empty() {
+                            if muted.lock().unwrap().iter().any(|i| !filtered(*i)) {
                                 ctx.fail(format!(
                                     "sess: use_keyspace({:?}) returned Ok although node(s) {:?} (with live pool connections) never answered the USE: their pools timed out and their connections stay published without the keyspace",
                                     name, muted.lock().unwrap()
@@ -1533,14 +1654,14 @@ fn run_sess(w: &[&str], ctx: &mut Ctx) -> Option<String> {
                     cluster.kill_connections(i, false);
                     out.push("k".into());
                 }
-                "W" => out.push(if cluster.wait_pools_full(&session, Duration::from_secs(3)).await { "w1".into() } else { "w0".into() }),
+                "W" => out.push(if wait_full(&session, Duration::from_secs(3)).await { "w1".into() } else { "w0".into() }),
                 "A" => {
                     let i = cluster.n_nodes();
                     cluster
                         .add_node(NodeSpec { host_id: host_id_of(i), dc: Shape::dc_name(0), rack: "r1".into(), tokens: vec![1000 + i as i64, -5000 - i as i64], shards: ShardMode::None })
                         .await;
                     let _ = session.refresh_metadata().await;
-                    cluster.wait_pools_full(&session, Duration::from_secs(3)).await;
+                    wait_full(&session, Duration::from_secs(3)).await;
                     out.push(format!("a{}", cluster.n_nodes()));
                 }
                 "Q" => {
@@ -1578,11 +1699,17 @@ fn run_sess(w: &[&str], ctx: &mut Ctx) -> Option<String> {
             }
         }
         // oracle at the nodes
+        for c in cluster.conns().iter().filter(|c| filtered(c.node) && !c.control) {
+            ctx.fail(format!("sess: the host filter rejects node {}, yet a pool connection was opened to it (acknowledged {:?})", c.node, c.keyspace_acks));
+        }
         for f in cluster.frames() {
             let text = match &f.parsed {
                 Parsed::Query { text, .. } | Parsed::Prepare { text } => text.clone(),
                 _ => continue,
             };
+            if filtered(f.node) && text.starts_with("SELECT pk, v FROM t WHERE pk = 0x") {
+                ctx.fail(format!("sess: the request {:?} ran on node {}, which the host filter rejects (it has no pool, so no connection there ever acknowledged a keyspace)", text, f.node));
+            }
             for (nm, _) in names.iter().filter(|(nm, _)| !spec_valid(nm) && !nm.is_empty()) {
                 if text.contains(nm.as_str()) {
                     ctx.fail(format!("sess: the invalid keyspace name {:?} reached node {} inside {:?}", nm, f.node, text));
